@@ -133,7 +133,7 @@ def candidates(rule, data, cap=400):
     return out
 
 
-def failing(prop, profile, cands, workdir):
+def failing(prop, profile, cands, workdir, slow=False):
     exe, msg = D.step_harness_build(profile)
     if not exe:
         return None
@@ -143,7 +143,9 @@ def failing(prop, profile, cands, workdir):
     with open(path, "w") as f:
         for r, d in cands:
             f.write(json.dumps({"rule": enc(r), "data": enc(d)}) + "\n")
-    rc, out = D.sh([exe, "gen", "FILE", "--as", prop, "--file", path, "--out", workdir, "--profile", profile], timeout=600)
+    # a case that hangs or crashes costs its whole time limit: give such candidates little
+    rc, out = D.sh([exe, "gen", "FILE", "--as", prop, "--file", path, "--out", workdir, "--profile", profile],
+                   env={"JLH_TIMEOUT": "3" if slow else "10"}, timeout=240 if slow else 600)
     if rc != 0:
         return None
     bad = set()
@@ -168,12 +170,14 @@ def shrink(prop, rec, budget_s=150):
     workdir = os.path.join(D.BUILD, "cases", f"{prop}-shrink")
     best = None
     rounds = 0
+    obs = rec.get("obs") or {}
+    slow = any(k in obs for k in ("timeout", "abort", "panic"))
     while time.time() - t0 < budget_s and rounds < 25:
         rounds += 1
-        cands = candidates(rule, data)
+        cands = candidates(rule, data, cap=24 if slow else 400)
         if not cands:
             break
-        res = failing(prop, profile, cands, workdir)
+        res = failing(prop, profile, cands, workdir, slow)
         if not res:
             break
         res = [(i, r) for i, r in res if not D.known_class_of(prop, r)]
